@@ -29,6 +29,8 @@ class MDD:
         self.next = 1
         self.r_cache = {}
         self.u_cache = {}
+        self.c_cache = {}
+        self.n_cache = {}
 
     @staticmethod
     def nid(n):
@@ -126,6 +128,62 @@ class MDD:
         self.u_cache[ck] = r
         return r
 
+    def conj(self, a, b):
+        if a is FALSE or b is FALSE:
+            return FALSE
+        if a is TRUE or a is b:
+            return b
+        if b is TRUE:
+            return a
+        ia, ib = a.id, b.id
+        ck = (ia, ib) if ia < ib else (ib, ia)
+        r = self.c_cache.get(ck)
+        if r is not None:
+            return r
+        if a.var.idx == b.var.idx:
+            pairs = []
+            for va, ca in a.edges:
+                for vb, cb in b.edges:
+                    inter = va & vb
+                    if inter:
+                        pairs.append((inter, self.conj(ca, cb)))
+            r = self.mk(a.var, pairs)
+        else:
+            if a.var.idx > b.var.idx:
+                a, b = b, a
+            r = self.mk(a.var, [(va, self.conj(ca, b)) for va, ca in a.edges])
+        self.c_cache[ck] = r
+        return r
+
+    def neg(self, a):
+        if a is TRUE:
+            return FALSE
+        if a is FALSE:
+            return TRUE
+        r = self.n_cache.get(a.id)
+        if r is not None:
+            return r
+        pairs = []
+        cover = 0
+        for va, ca in a.edges:
+            cover |= va
+            pairs.append((va, self.neg(ca)))
+        left = a.var.fullmask & ~cover
+        if left:
+            pairs.append((left, TRUE))
+        r = self.mk(a.var, pairs)
+        self.n_cache[a.id] = r
+        return r
+
+    def any_model(self, n):
+        """one satisfying assignment {CharVar: char} (unconstrained variables are absent)"""
+        out = {}
+        while isinstance(n, Node):
+            vals, ch = n.edges[0]
+            out[n.var] = next(a for a in n.var.alpha if vals & n.var.bit[a])
+            n = ch
+        return out if n is TRUE else None
+
     def values(self, n, var):
         """set of values of var that occur in some satisfying assignment (over-approx by projection)"""
         out = set()
@@ -187,3 +245,6 @@ class MDD:
             for _, ch in x.edges:
                 stack.append(ch)
         return len(seen)
+
+
+THE = MDD()
